@@ -3,6 +3,11 @@
 import json, subprocess
 
 BUILT = {
+ "C10": dict(level="exploration",
+   technique="metamorphic / twin-session testing: a history of succeeding inputs with and without interleaved side-effect-free failing inputs; oracle = every succeeding input behaves identically in both sessions",
+   text="Succeeding inputs (typed-grammar statements plus fixed inputs that print from inside a function, run counted loops and recurse) are fed to one persistent session, and to a twin in which 0..12 failing inputs of 25 kinds (language error at top level / in nested calls / in every loop form, type error deep in an expression, depth overflow, memory-guard refusal, deadline on a tight loop, parse error, incomplete input, wrong arity...) are inserted at every position; the session writer is set once, so output that goes astray shows up as a missing delta. Per succeeding input the output, echo, errors and panicked flag must match, and the final globals too. Every failure kind is also run 12 times in a row in a deterministic family.",
+   note="Failing inputs are built to be side-effect free (IIFEs, own names, no prints). A failing input that does not fail as constructed (deadline not firing) makes the case inconclusive. Successes run with a 20 s safety deadline.",
+   ref="DESIGN.md section 3, C10"),
  "C04": dict(level="exploration",
    technique="differential testing (function-result cache on vs off through a build-tag hook) of stateful REPL histories and typed-grammar programs; oracle = identical per-input output, echo, error/no-error and final globals",
    text="A stateful generator builds REPL histories that define and redefine functions and lambdas from body templates (pure, global-reading, constant-reading, callee-calling, printing, failing, impure through a harness-registered DontCache extension, recursive, closure factories capturing numbers, strings, upper-case names and function values, counters with mutable captured state), call them with arguments from a small pool and repeat earlier calls verbatim, mutate globals, delete and re-create names; the same history runs on two fresh states with the cache enabled and with every lookup forced to miss, and every input's output, echo, error presence and the final globals must agree. The hook's hit counter measures that a history really had cache hits after a state change. Stale hits need a pair of calls separated by a particular state change (found: redefined callee, deleted constant, captured function value, -0.0 vs 0.0, cached closure result, cached caller of an impure callee, new global).",
